@@ -158,7 +158,7 @@ Consume(c, kind, vs, stages) ==
          [prog |-> <<RedE("$||", "bool", V("it"))>>, v |-> BoolV(w.stopped), log |-> w.log]
 
 \* ------------------------------------------------------------------ the cases
-IntSeqs == {<<>>, <<1>>, <<2, 1>>, <<1, 2, 3>>, <<3, 3, 1>>}
+IntSeqs == {<<>>, <<1>>, <<2, 1>>, <<1, 2, 3>>, <<3, 3, 1>>, <<2, 0, 3>>, <<0, 1>>}
 IntStages1 == {[k |-> "map"], [k |-> "filter"], [k |-> "tfilter", ty |-> WInt]}
 IntPipes == {<<>>} \cup {<<s>> : s \in IntStages1} \cup {<<s, t>> : s \in IntStages1, t \in IntStages1}
 \* `? float' turns the element type into float: only as the last stage, before a type-agnostic consumer
@@ -179,15 +179,30 @@ MixTypes == {WInt, WFloat, WStr, WMulti(<<WInt, WFloat>>), WAny}
 MixCases == {[kind |-> kd, vs |-> xs, ety |-> MixTy, stages |-> <<[k |-> "tfilter", ty |-> t]>>, cons |-> c] :
                kd \in Kinds, xs \in MixSeqs, t \in MixTypes, c \in {"collect", "for", "manual"}}
 
-Usable(c) == c.kind = "arr" \/ UserOk(c.vs)
+\* the same pipeline SITE evaluated twice: a function whose body builds the iterator over a LITERAL array
+\* (foldable) and consumes it, called twice; each call must enumerate the array afresh
+TwiceCons == {"collect", "part", "reduce", "sum", "prod", "band", "bor"}
+ConsTy(c) == CASE c = "collect" -> WArr(WInt) [] c = "part" -> WTup(<<WArr(WInt), WArr(WInt)>>) [] OTHER -> WInt
+TwiceCases == {[kind |-> "lit", vs |-> [i \in 1..Len(xs) |-> IntV(xs[i])], ety |-> WInt, stages |-> ps, cons |-> c] :
+                 xs \in IntSeqs \ {<<>>}, ps \in {<<>>, <<[k |-> "map"]>>, <<[k |-> "filter"]>>}, c \in TwiceCons}
+Usable(c) == c.kind \in {"arr", "lit"} \/ UserOk(c.vs)
 \* (int and bool values cannot live in one TLC set: their `v' fields are incomparable)
-CaseSeq0 == SetToSeq({c \in IntCases : Usable(c)}) \o SetToSeq({c \in BoolCases : Usable(c)})
+CaseSeq0 == SetToSeq({c \in IntCases : Usable(c)}) \o SetToSeq(TwiceCases) \o SetToSeq({c \in BoolCases : Usable(c)})
             \o SetToSeq({c \in MixCases : Usable(c)})
 CaseSeq == SelectSeq([i \in 1..Len(CaseSeq0) |-> IF i % SampleMod = 0 THEN CaseSeq0[i] ELSE NoneV], LAMBDA b : b # NoneV)
 N == Len(CaseSeq)
 
-Ref(c) == Consume(c.cons, c.kind, c.vs, c.stages)
-Prog(c) == Prelude \o SrcStmts(c.kind, c.vs, c.ety) \o <<Set("it", Pipe(c.stages, V("it0")))>> \o Ref(c).prog
+Ref(c) ==
+  IF c.kind = "lit"
+  THEN LET r == Consume(c.cons, "arr", c.vs, c.stages) IN
+       [prog |-> <<FnDecl("run", <<>>, ConsTy(c.cons),
+                          <<Set("it", Pipe(c.stages, IterE(ArrE([i \in 1..Len(c.vs) |-> Lit(c.vs[i])])))),
+                            Ret(r.prog[1])>>),
+                   TupE(<<CallE(V("run"), <<>>), CallE(V("run"), <<>>)>>)>>,
+        v |-> TupV(<<r.v, r.v>>), log |-> r.log \o r.log]
+  ELSE Consume(c.cons, c.kind, c.vs, c.stages)
+Prog(c) == IF c.kind = "lit" THEN Prelude \o Ref(c).prog
+           ELSE Prelude \o SrcStmts(c.kind, c.vs, c.ety) \o <<Set("it", Pipe(c.stages, V("it0")))>> \o Ref(c).prog
 Fuel == 3000
 Out(i) == Outcome(Run(Prog(CaseSeq[i]), Fuel))
 
